@@ -36,13 +36,34 @@ fn model(m: &[Vec<f64>], which: usize) -> f64 {
     }
 }
 
-fn close(obs: f32, exp: f64) -> bool {
+/// f32 result against the f64 model. The tolerance is relative to the SCALE of the matrix (largest
+/// finite |entry|), so that similarities on a tiny scale (1e-8, 1e-30) are judged as strictly as
+/// those in 0..1; an infinite or NaN model value must be met exactly.
+fn close_at(obs: f32, exp: f64, scale: f64) -> bool {
     let o = f64::from(obs);
-    o.is_finite() && (o - exp).abs() <= 1e-4 * exp.abs().max(1.0)
+    if exp.is_nan() {
+        return o.is_nan();
+    }
+    if exp.is_infinite() {
+        return o == exp;
+    }
+    o.is_finite() && (o - exp).abs() <= 2e-5 * scale.max(exp.abs()) + 1e-44
+}
+
+fn scale_of(m: &[Vec<f64>]) -> f64 {
+    m.iter().flatten().copied().filter(|x| x.is_finite()).fold(0.0f64, |a, b| a.max(b.abs()))
 }
 
 fn gen_value(rng: &mut Rng, mode: u64) -> f32 {
-    match mode % 6 {
+    match mode % 11 {
+        // tiny scales (a similarity like a joint frequency)
+        6 => (rng.f64() * 1e-8) as f32,
+        7 => (1.0 + rng.f64()) as f32 * 1e-30,
+        // a similarity like 1/distance or ln(frequency): +inf (or -inf) now and then, never both
+        8 => if rng.chance(1, 6) { f32::INFINITY } else { rng.f64() as f32 },
+        9 => if rng.chance(1, 4) { f32::NEG_INFINITY } else { (rng.f64() * 4.0 - 2.0) as f32 },
+        // nearly equal values: row and column means differ in the last bits only
+        10 => 0.5 + (rng.below(4) as f32) * f32::EPSILON,
         0 => (rng.f64() as f32),                       // [0,1)
         1 => (rng.f64() * 20.0 - 10.0) as f32,         // negatives
         2 => [0.0f32, 1.0, 0.5][rng.usize_below(3)],   // duplicates / zeros
@@ -120,7 +141,7 @@ impl C05 {
             bump(&mut out.events, "SimilarityCombiner::calculate");
             let exp = model(&m64, w);
             match guard(|| comb.calculate(&m)) {
-                Ok(v) => out.check(close(v, exp), "C05", &format!("combiner_value/{name}"), || {
+                Ok(v) => out.check(close_at(v, exp, scale_of(&m64)), "C05", &format!("combiner_value/{name}"), || {
                     format!("{name} of {r}x{c} matrix {data:?} = {v}, model = {exp}")
                 }),
                 Err(p) => out.violate("C05", &format!("panic:combiner/{name}"), format!("{r}x{c}: {} at {}", p.message, p.location)),
@@ -185,11 +206,11 @@ impl C05 {
             let sb = HpoSet::new(&ont, HpoGroup::from(b.clone()));
             for (w, (comb, name)) in COMBINERS.iter().enumerate() {
                 for (first, second, fa, fb) in [(&sa, &sb, &a, &b), (&sb, &sa, &b, &a)] {
-                    let exp = if fa.is_empty() || fb.is_empty() {
-                        0.0
+                    let (exp, scale) = if fa.is_empty() || fb.is_empty() {
+                        (0.0, 1.0)
                     } else {
                         let m: Vec<Vec<f64>> = fa.iter().map(|x| fb.iter().map(|y| f64::from(sim.value(*x, *y))).collect()).collect();
-                        model(&m, w)
+                        (model(&m, w), scale_of(&m))
                     };
                     sim.calls.borrow_mut().clear();
                     bump(&mut out.events, "HpoSet::similarity");
@@ -204,7 +225,7 @@ impl C05 {
                             if fa.is_empty() || fb.is_empty() {
                                 out.check(v == 0.0, "C05", &format!("empty_set_not_zero/{name}"), || format!("{name}({fa:?},{fb:?}) = {v}"));
                             }
-                            out.check(close(v, exp), "C05", &format!("set_similarity/{name}"), || {
+                            out.check(close_at(v, exp, scale), "C05", &format!("set_similarity/{name}"), || {
                                 format!("{name}({fa:?},{fb:?}) = {v}, model on the |A|x|B| matrix = {exp}")
                             });
                             out.check(v.to_bits() == v2.to_bits(), "C05", "group_similarity_twin", || format!("HpoSet::similarity {v} != GroupSimilarity::calculate {v2}"));
@@ -229,12 +250,13 @@ impl C05 {
                 if !a.is_empty() {
                     let m: Vec<Vec<f64>> = a.iter().map(|x| a.iter().map(|y| f64::from(sim.value(*x, *y))).collect()).collect();
                     let exp = model(&m, w);
+                    let scale = scale_of(&m);
                     out.bucket("same_object_on_both_sides");
                     bump(&mut out.events, "HpoSet::similarity");
                     bump(&mut out.events, "GroupSimilarity::calculate");
                     match (guard(|| sa.similarity(&sa, ByRef(&sim), *comb)), guard(|| GroupSimilarity::new(*comb, ByRef(&sim)).calculate(&sa, &sa))) {
                         (Ok(v), Ok(v2)) => {
-                            out.check(close(v, exp), "C05", &format!("set_similarity_same_object/{name}"), || {
+                            out.check(close_at(v, exp, scale), "C05", &format!("set_similarity_same_object/{name}"), || {
                                 format!("{name}(A,A) with A = {a:?} (one object) = {v}, model on the |A|x|A| matrix = {exp}")
                             });
                             out.check(v.to_bits() == v2.to_bits(), "C05", "group_similarity_twin", || format!("HpoSet::similarity {v} != GroupSimilarity::calculate {v2} (same object)"));
@@ -251,7 +273,8 @@ impl C05 {
                 if sim.symmetric && !a.is_empty() && !b.is_empty() {
                     let x = sa.similarity(&sb, ByRef(&sim), *comb);
                     let y = sb.similarity(&sa, ByRef(&sim), *comb);
-                    out.check((f64::from(x) - f64::from(y)).abs() <= 1e-5 * f64::from(x.abs()).max(1.0), "C05", &format!("order_dependence/{name}"), || {
+                    let same = x == y || (x.is_nan() && y.is_nan()) || (x.is_finite() && y.is_finite() && (f64::from(x) - f64::from(y)).abs() <= 1e-5 * f64::from(x.abs()));
+                    out.check(same, "C05", &format!("order_dependence/{name}"), || {
                         format!("{name}(A,B) = {x} but (B,A) = {y} under a symmetric term similarity")
                     });
                 }
@@ -305,11 +328,11 @@ impl C05 {
                     if !fa.is_empty() && fa.len() < fb.len() && fb.len() > wide_limit {
                         continue;
                     }
-                    let exp = if fa.is_empty() || fb.is_empty() {
-                        0.0
+                    let (exp, scale) = if fa.is_empty() || fb.is_empty() {
+                        (0.0, 1.0)
                     } else {
                         let m: Vec<Vec<f64>> = fa.iter().map(|x| fb.iter().map(|y| f64::from(sim.value(*x, *y))).collect()).collect();
-                        model(&m, w)
+                        (model(&m, w), scale_of(&m))
                     };
                     sim.calls.borrow_mut().clear();
                     bump(&mut out.events, "HpoSet::similarity");
@@ -322,7 +345,7 @@ impl C05 {
                                 if fa.is_empty() || fb.is_empty() {
                                     out.check(v == 0.0, "C05", &format!("empty_set_not_zero/{name}"), || format!("{api} {name}(|A|={}, |B|={}) = {v}", fa.len(), fb.len()));
                                 } else {
-                                    out.check(close(v, exp), "C05", &format!("set_similarity/{name}"), || {
+                                    out.check(close_at(v, exp, scale), "C05", &format!("set_similarity/{name}"), || {
                                         format!("{api} {name}(|A|={}, |B|={}) = {v}, model on the matrix = {exp}", fa.len(), fb.len())
                                     });
                                 }
@@ -348,7 +371,7 @@ impl Monitor for C05 {
             .into()
     }
     fn assumptions(&self) -> Vec<String> {
-        vec!["matrix values are finite (NaN ordering is outside the statement); each set has at most 65 535 members unless the other one is empty".into(), "f32 result vs f64 model at 1e-4*max(1,|v|)".into()]
+        vec!["matrix values are not NaN (NaN ordering is outside the statement); each set has at most 65 535 members unless the other one is empty".into(), "f32 result vs f64 model at 2e-5 * max(largest finite |entry|, |v|); infinite model values must be met exactly; matrices never hold +inf and -inf together (their sum is NaN by IEEE, not by the library)".into()]
     }
     fn plan(&self, tier: Tier) -> Vec<String> {
         let mut v = Vec::new();
